@@ -1,4 +1,6 @@
 """C08 — coin selection: the bookkeeping clauses whose truth is in the shape of the code (origins, pairing, gates, index typestate)."""
+import re
+
 import common
 import facts
 import fieldflow as ff
@@ -54,6 +56,192 @@ def is_pool(o):
 
 def calls_to(F, fid, suffix):
     return [c for c in F.calls(fid) if (c.to or "").endswith(suffix)]
+
+
+def fresh_rule(rep, F, ids):
+    """coverage comparisons read the running totals as they are at the comparison, not a copy taken before a later update"""
+    from collections import defaultdict, deque
+    rep.rule("FRESH", "every coverage comparison in the selection functions compares values read from the running totals (input_total / output_total) after their last update: no operand is computed from a total at a point from which an update of that total can still run before the comparison (a hoisted `needed = by(output_total)` misses the fee of the inputs added afterwards)")
+    n_cmp = 0
+    for k, fid in ids.items():
+        fn = F.fns[fid]
+        roots = set()
+        for i_, ty in enumerate(fn["locals"]):
+            if 1 <= i_ <= fn["argc"] and ty == "&mut utils::Value":
+                roots.add(("_%d" % i_, True))
+        names = {n_: l_ for n_, l_ in fn["names"]}
+        for nm in ("input_total", "output_total"):
+            l_ = names.get(nm)
+            if l_ and fn["locals"][int(l_[1:])] == "utils::Value":
+                roots.add((l_, False))
+        if not roots:
+            rep.lost("%s: running totals not found" % FNS[k])
+            continue
+        bases = {r[0] for r in roots}
+
+        def place_mentions(pl):
+            return pl.split("|")[0] in bases and pl.split("|")[0]
+
+        defs = defaultdict(list)
+        for bi, bb in enumerate(fn["bbs"]):
+            if bb["c"]:
+                continue
+            for st in bb["st"]:
+                if st[1] == "=":
+                    defs[st[2]].append(("st", bi, st[3]))
+            t = bb["t"]
+            if t[1] == "call":
+                defs[t[4]].append(("call", bi, t))
+
+        def rv_ops(rv):
+            k_ = rv[0]
+            if k_ in ("use", "repeat"):
+                return [rv[1]], []
+            if k_ in ("ref", "rawptr"):
+                return [], [rv[2]]
+            if k_ == "cast":
+                return [rv[2]], []
+            if k_ == "bin":
+                return [rv[2], rv[3]], []
+            if k_ == "un":
+                return [rv[2]], []
+            if k_ in ("discr", "deref", "len"):
+                return [], [rv[1]]
+            if k_ == "agg":
+                return list(rv[4]), []
+            return [], []
+
+        def temp_mentions(op, depth=0):
+            """accumulator base the operand refers to without going through a call (ref / tuple-of-ref temporaries)"""
+            if op[0] == "k":
+                return set()
+            pl = op[1]
+            m = place_mentions(pl)
+            if m:
+                return {m}
+            if "|" in pl or depth > 3:
+                return set()
+            out = set()
+            ds = defs.get(pl, [])
+            if len(ds) == 1 and ds[0][0] == "st":
+                ops, pls = rv_ops(ds[0][2])
+                for p_ in pls:
+                    m = place_mentions(p_)
+                    if m:
+                        out.add(m)
+                for o_ in ops:
+                    out |= temp_mentions(o_, depth + 1)
+            return out
+
+        def chain(op, depth=0, seen=None):
+            """[(block, accumulator base)] read points on the single-definition chain behind a comparison operand"""
+            seen = seen if seen is not None else set()
+            out = []
+            if op[0] == "k" or depth > 8:
+                return out
+            pl = op[1]
+            base = pl.split("|")[0]
+            if base in bases or base in seen:
+                return out   # read in place at the comparison: fresh
+            seen.add(base)
+            ds = defs.get(base, [])
+            if len(ds) != 1:
+                return out
+            kind, bi, x = ds[0]
+            if kind == "call":
+                for a in x[3]:
+                    for m in temp_mentions(a):
+                        out.append((bi, m))
+                    out += chain(a, depth + 1, seen)
+            else:
+                ops, pls = rv_ops(x)
+                for p_ in pls:
+                    m = place_mentions(p_)
+                    if m and x[0] != "ref":
+                        out.append((bi, m))
+                    elif not m:
+                        out += chain(["c", p_], depth + 1, seen)
+                for o_ in ops:
+                    if o_[0] != "k" and place_mentions(o_[1]):
+                        out.append((bi, place_mentions(o_[1])))
+                    else:
+                        out += chain(o_, depth + 1, seen)
+            return out
+
+        # writes to the accumulators
+        writes = defaultdict(set)
+        for bi, bb in enumerate(fn["bbs"]):
+            if bb["c"]:
+                continue
+            for st in bb["st"]:
+                if st[1] == "=":
+                    b_ = st[2].split("|")[0]
+                    if b_ in bases and (st[2] == b_ or st[2].startswith(b_ + "|*") or st[2].startswith(b_ + "|f:")):
+                        if (b_, True) in roots and not st[2].startswith(b_ + "|*"):
+                            continue
+                        writes[b_].add(bi)
+                    if st[3][0] == "ref" and st[3][1] == "mut" and (b_ not in bases):
+                        pass
+            t = bb["t"]
+            if t[1] == "call":
+                b_ = t[4].split("|")[0]
+                if b_ in bases and ((b_, False) in roots or t[4].startswith(b_ + "|*")):
+                    writes[b_].add(bi)
+                # a callee handed `&mut total` may update it
+                for a in t[3]:
+                    if a[0] != "k" and "|" not in a[1]:
+                        ds = defs.get(a[1], [])
+                        if len(ds) == 1 and ds[0][0] == "st" and ds[0][2][0] == "ref" and ds[0][2][1] == "mut":
+                            m = place_mentions(ds[0][2][2])
+                            if m and (ds[0][2][2] == m or ds[0][2][2] == m + "|*") and not (t[2].get("to") or "").endswith("checked_add"):
+                                writes[m].add(bi)
+        succ = {i_: [s_ for s_ in mp._succs(fn, i_) if s_ is not None and not fn["bbs"][s_]["c"]] for i_ in range(len(fn["bbs"])) if not fn["bbs"][i_]["c"]}
+
+        def reach(src_list, dst, avoid):
+            dq, seen_ = deque(src_list), set(src_list)
+            while dq:
+                x_ = dq.popleft()
+                if x_ == dst:
+                    return True
+                for y_ in succ.get(x_, []):
+                    if y_ != avoid and y_ not in seen_:
+                        seen_.add(y_)
+                        dq.append(y_)
+            return False
+
+        comps = []
+        for bi, bb in enumerate(fn["bbs"]):
+            if bb["c"]:
+                continue
+            for st in bb["st"]:
+                if st[1] == "=" and st[3][0] == "bin" and st[3][1] in ("Lt", "Le", "Gt", "Ge"):
+                    comps.append((bi, [st[3][2], st[3][3]]))
+            t = bb["t"]
+            if t[1] == "call" and re.search(r"PartialOrd::(lt|le|gt|ge)$", t[2].get("to") or ""):
+                comps.append((bi, list(t[3])))
+        reported = set()
+        for bc, ops in comps:
+            pts = []
+            for o_ in ops:
+                pts += chain(o_)
+            direct = any(temp_mentions(o_) for o_ in ops)
+            if not pts and not direct:
+                continue
+            n_cmp += 1
+            rep.inst("FRESH")
+            for br, base in pts:
+                if br == bc:
+                    continue
+                for bw in writes.get(base, ()):
+                    if bw == br:
+                        continue
+                    if reach([s_ for s_ in succ.get(br, []) if s_ != br], bw, br) and reach([bw], bc, br):
+                        nm = [n_ for n_, l_ in fn["names"] if l_ == base]
+                        key = "%s|%s" % (FNS[k], nm[0] if nm else base)
+                        if key not in reported:
+                            reported.add(key)
+                            rep.violation("FRESH", key, "%s compares a value computed from `%s` before a point where `%s` is still updated (the fee of every added input is added to it): the coverage test uses a stale target, so selection can stop - and report success - while the inputs do not cover outputs + the fee of the inputs just added" % (FNS[k], nm[0] if nm else base, nm[0] if nm else base), {})
+    rep.floor("coverage comparisons over the running totals", 4, n_cmp)
 
 
 def check(rep, F, tier, replay=None):
@@ -438,4 +626,5 @@ def check(rep, F, tier, replay=None):
                 ok = True
         if not ok:
             rep.violation("LF", "cip2_largest_first_by|stop", "cip2_largest_first_by adds an input on a path that does not pass the not-yet-covered edge of the coverage comparison (it no longer stops as soon as the target is covered)", {})
+    fresh_rule(rep, F, ids)
     return rep.finish(EXPLANATION, ["Value::checked_add / BigNum comparisons are exact (C14)", "fee_for_input is the marginal fee of the input (C06 / C15)"], ["csl-facts driver (MIR: resolved callees, dominators, origins slice)"])
